@@ -24,15 +24,15 @@ ASSUMPTIONS = ['npstructures RunLength2dArray.from_intervals/.sum(axis=0), RunLe
                'is modelled by its assertions and its meaning (its internals are the subject of C09)',
                'GlobalOffset (chromosome offsets = cumulative sizes, slicing a genome-wide array per chromosome) is modelled by '
                'goff / slice (its internals are the subject of C10)',
-               'floats returned by jaccard/forbes are compared with the exact fraction to 1e-12',
+               'floats returned by jaccard/forbes are compared with the exact fraction to 1e-12; when the denominator is 0 (empty '
+               'union / an empty marginal) the per-base value is undefined and the Spec asks for what NumPy division gives: nan for 0/0',
                'rows of A without bases (start = stop) in unique_intersect are outside the property: the model follows the '
                'library (kept iff bases p-1 and p are covered) and the Spec compares only the rows with bases',
                'pairs of interval sets are enumerated exhaustively only for contigs of size <= 3 (<= 2 in the quick tier); the '
                'theorems cover all sizes']
-PARTIAL = ['C08_model_implies_spec_partial: the link model_ok -> spec_ok excludes arithmetics.jaccard / forbes on an interval set '
-           'without entries (the library raises: known finding C08-similarity-empty-set-raises; refuted without the guard)',
-           'C08_clip_inside_partial / C08_sort_lex_partial describe the code before the repairs fc449e4 / 3a58fb5 (history); the '
-           'current code satisfies C08_clip_inside_fixed / C08_sort_lex_fixed']
+PARTIAL = ['C08_clip_inside_partial / C08_sort_lex_partial / C08_similarity_stream_pinned_refuted describe the code before the '
+           'repairs fc449e4 / 3a58fb5 / a68b397 (history); the current code satisfies the unguarded statements '
+           '(C08_clip_inside_fixed, C08_sort_lex_fixed, C08_model_implies_spec)']
 PER_FILE = 64
 
 OPCODE = {'pileup': 1, 'pileup_bg': 2, 'mask': 3, 'merge': 4, 'sort_key': 5, 'sort_lex': 6, 'sort_geom': 7,
@@ -240,6 +240,12 @@ def generate(tier, seed):
             A = _disjoint(rng, S, A)
             B = _disjoint(rng, S, B)
         _binary(cases, rng, S, A, B)
+    # ---- similarity measures with an empty set on either side and on both sides (arithmetics and Geometry routes)
+    for i in range(60 if quick else 400):
+        S = rng.choice([1, 2, 3, 5, 6, 10])
+        X = _rand_set(rng, S, rng.choice([1, 2, 3, 5]))
+        for A, B in (([], X), (X, []), ([], [])):
+            _binary(cases, rng, S, A, B, ops=('jaccard', 'forbes'))
     # ---- unique_intersect with rows of A that have no bases (start = stop): not in the property; the model follows the library
     for i in range(300 if quick else 2000):
         S = rng.choice([2, 3, 4, 5, 6])
@@ -482,12 +488,8 @@ def _only_stop_order_wrong(case, o):
 
 
 def finding(case, o):
-    op, route = case['op'], case['route']
-    # (the three repaired defects — lexsort / Geometry.sort ignoring the stop, clip outside the contig — have no matcher
-    #  any more: if they come back they are violations)
-    if op in ('jaccard', 'forbes') and route == 'arith' and o.get('err') == 2 and (not case['a'] or not case['b']) \
-            and o.get('msg', '').startswith('ValueError'):
-        return 'C08-similarity-empty-set-raises'
+    # no known finding is left for C08: the four defects met (lexsort / Geometry.sort ignoring the stop, clip outside the
+    # contig, jaccard / forbes raising on an empty set) are repaired in /repo; if one comes back it is a violation
     return None
 
 
